@@ -1,6 +1,6 @@
 (* Property C19 (partial): signature printing/parsing.  Statements closed by `exact`, each with Print Assumptions. *)
 From Coq Require Import List String Bool.
-From C19 Require Import Sig SigProofs Imports ImportsProofs Ann AnnProofs AnnImports Defaults DefaultsProofs Strs Emit EmitProofs.
+From C19 Require Import Sig SigProofs Imports ImportsProofs Ann AnnProofs AnnImports Defaults DefaultsProofs Strs Emit EmitProofs EmitGuards.
 From Gen Require Import StubPreds.
 Import ListNotations.
 Open Scope string_scope.
@@ -140,6 +140,36 @@ Proof.
   vm_compute. repeat split; reflexivity.
 Qed.
 Print Assumptions references_defined_refuted.
+
+(* the POSITIVE counterparts of the two refutations, under decidable guards on the source module that exclude exactly the
+   witness classes (evaluated on every module of the emitter tie: see evidence keys C_emit_guard) *)
+(* if no top-level name is bound by two definitions (if/else alternatives included), the stub defines every name at most
+   once — except the items of an overload chain, which are repeated by design *)
+Theorem definitions_unique_guarded : forall c l n,
+  no_redefinition_guard l = true -> ~ In n (overload_names l) -> count_name n (emit_module c l) <= 1.
+Proof. exact definitions_unique_guarded_holds. Qed.
+Print Assumptions definitions_unique_guarded.
+
+(* if every name a top-level definition refers to (kept decorators, bases, annotation names) is known from outside (env) or
+   is a PUBLIC top-level definition of the module, every reference of the emitted stub is defined in the stub or in env *)
+Theorem references_defined_guarded : forall c env l,
+  refs_guard c env l = true -> refs_defined env (emit_module c l) = true.
+Proof. exact references_defined_guarded_holds. Qed.
+Print Assumptions references_defined_guarded.
+
+Example guards_satisfiable :
+  let c := mkCfg false (Some ["fa"; "Bl"; "dc"; "de"]) in
+  let l := [IVar "Bl" true VAliasQualified ["list"]; IFunc "fa" [] ["Bl"]; IFunc "dc" [] []; IFunc "de" [mkDeco "dc" true false] [];
+            IOverloaded "ov" [([mkDeco "overload" true true], []); ([mkDeco "overload" true true], [])]] in
+  no_redefinition_guard l = true /\ refs_guard c ["list"; "overload"] l = true /\
+  map oname (emit_module c l) = ["Bl"; "fa"; "dc"; "de"].
+Proof. vm_compute. repeat split; reflexivity. Qed.
+(* and the guards reject the witnesses of the refutations *)
+Example guards_reject_witnesses :
+  no_redefinition_guard [IIf [IClass "X" [] []] [IClass "X" [] []]] = false /\
+  refs_guard (mkCfg false (Some ["fa"; "de"])) ["list"]
+    [IVar "Bl" true VAliasQualified ["list"]; IFunc "fa" [] ["Bl"]; IFunc "dc" [] []; IFunc "de" [mkDeco "dc" true false] []] = false.
+Proof. vm_compute. split; reflexivity. Qed.
 
 Example emit_example :
   emit_module (mkCfg false None)
